@@ -53,6 +53,7 @@ var propDeps = map[string][]string{
 	"C01": {"C04", "C11"},
 	"C19": {"C04"},
 	"C13": {"C04"}, // purity of a query includes the frames of the whole Match chain
+	"C16": {"C06"}, // the cosmetic option is derived from the verdict
 }
 
 func hasProp(ps []string, p string) bool {
